@@ -118,8 +118,14 @@ func Deconstruct(s Square, decoder PFBDecoder) ([][]byte, error) {
 
 		blobs := make([]*share.Blob, len(wpfb.ShareIndexes))
 		for j, shareIndex := range wpfb.ShareIndexes {
-			containsSigner := int(shareIndex) < len(s) && s[shareIndex].Version() == share.ShareVersionOne
+			if int(shareIndex) >= len(s) {
+				return nil, fmt.Errorf("share index %d of blob %d in wrapped PFB %d is outside the square", shareIndex, j, i)
+			}
+			containsSigner := s[shareIndex].Version() == share.ShareVersionOne
 			end := int(shareIndex) + share.SparseSharesNeededWithSigner(blobSizes[j], containsSigner)
+			if end > len(s) {
+				return nil, fmt.Errorf("blob %d of wrapped PFB %d ends at share %d, outside the square", j, i, end)
+			}
 			parsedBlobs, err := share.ParseBlobs(s[shareIndex:end])
 			if err != nil {
 				return nil, err
